@@ -4,8 +4,9 @@ SPECIFICATION Spec
 CONSTANTS
   Order = "code"
   D1Fixed = TRUE
+  HopSafe = TRUE
   CLNormalised = TRUE
   BigBodies = TRUE
-  Families = {"id", "sig"}
+  Families = {"id", "sig", "hop"}
 INVARIANTS TypeOK RulesHold ComposedAgrees SignedIsReceived BodyIntact SignedAfterStrip SignedAfterIdentity
 CHECK_DEADLOCK FALSE
